@@ -868,6 +868,17 @@ func (g *Gen) evalCall(x *ECall, env *Env) Val {
 		}
 		v, _ := g.unflatten(a.T, ts)
 		return v
+	case "held":
+		// held(x.mu): the ghost bit set by Lock and cleared by Unlock in units with `track-locks`
+		ap, ok := g.evalAddr(x.Args[0], env)
+		if !ok {
+			panic(contractErr("held(): expected a mutex field x.mu"))
+		}
+		h := env.heap
+		if h == nil {
+			h = g.heap0
+		}
+		return sv(boolT, "(select "+g.heapGet(h, "held:"+ap.Prefix, "(Array Int Bool)")+" "+ap.Idx[0]+")")
 	case "has":
 		m := arg(0)
 		mt, ok := m.T.Underlying().(*types.Map)
